@@ -103,7 +103,7 @@ PROFILE_BASE = {
     "mix": {"insert": 6, "insert_multiple": 2, "update": 2, "update_all": 1,
             "remove": 2, "remove_all": 0.3, "drop": 0.5, "read": 4,
             "getter": 2, "lifecycle": 0.7, "clock": 1, "cursor": 0,
-            "illtyped": 0, "invalid": 0},
+            "illtyped": 0, "invalid": 0, "bulk": 0},
     "reads_after": (0, 3), "modes": ["r+"], "scan": 0.0, "collab": 0.0,
     "faults": None, "max_points": 25, "qdepth": 3, "none_values": 0.15,
     "compact": 0.0, "known_triggers": 0.0, "abandon": 0.0,
@@ -148,6 +148,7 @@ class Gen:
             ["inorder", "jitter", "ties", "random", "adjacent"])
         self.qdepth = prof["qdepth"]
         self.handles_seen = set()
+        self.bulked = False
 
     # -- configuration -------------------------------------------------------
     def draw_cfg(self):
@@ -170,6 +171,13 @@ class Gen:
         if cfg["storage"] == "csv" and p.get("cfg_dialects"):
             cfg["dialect"] = r.choice(["default", "default", "semicolon_all",
                                        "tab", "pipe_sq", "lf"])
+        if cfg["storage"] == "csv" and not p.get("faults_need_atomic_rows"):
+            # small I/O buffers: the file is larger than the buffer, reads
+            # stop mid-file, long rows exceed the buffer (fault-free
+            # profiles only: assumption A3 of the crash model needs rows
+            # smaller than the buffer)
+            cfg["bufsize"] = r.choice([64, 512, 4096, 8192, 8192, 65536])
+            cfg["path_kind"] = r.choice(["str", "str", "pathlib"])
         if cfg["storage"] == "csv":
             cfg["text_chunk"] = r.choice([None, None, 1, 16, 64, 512])
             cfg["copy_chunk"] = r.choice([0, 0, 1, 7, 64, 4096])
@@ -263,6 +271,18 @@ class Gen:
         if self.triggers:
             a["m"] = a["m"][:2] + KNOWN_TRIGGERS["m"]
             a["tv"] = a["tv"][:3] + KNOWN_TRIGGERS["tv"]
+        if self.prof.get("long_strings") and r.random() < \
+                self.prof["long_strings"]:
+            # a value longer than the I/O buffers and the text chunk
+            n = r.choice([300, 4100, 8200, 20000])
+            unit = r.choice(["L", "ab,", 'q"', "x\ny", "é"])
+            if _encodable(unit, enc):
+                a["tv"] = a["tv"][:2] + [(unit * n)[:n]]
+                # keep the number of simulated I/O calls bounded
+                if self.cfg.get("text_chunk") in (1, 16):
+                    self.cfg["text_chunk"] = 512
+                if self.cfg.get("bufsize", 8192) < 512:
+                    self.cfg["bufsize"] = 512
         self.alpha_name = name
         return a
 
@@ -689,6 +709,29 @@ class Gen:
             op["compact"] = True
         return self.route(op)
 
+    def op_bulk(self):
+        """Many points at once (hundreds): files larger than every buffer,
+        index structures with many entries."""
+        r = self.rng
+        n = r.choice([40, 120, 300])
+        pts = []
+        t0 = self.gen_instant()
+        for j in range(n):
+            pt = {"time": catalog.time_to_json(
+                t0 + _dt.timedelta(microseconds=r.choice([1, 1000, -500,
+                                                           0]) * j)),
+                  "m": r.choice(self.alpha["m"])}
+            if r.random() < 0.7:
+                pt["tags"] = {r.choice(self.alpha["tk"]):
+                              r.choice(self.alpha["tv"][:3])}
+            if r.random() < 0.7:
+                pt["fields"] = {r.choice(self.alpha["fk"]): j % 7}
+            pts.append(pt)
+        op = {"op": "insert_multiple", "pts": pts}
+        if r.random() < 0.5:
+            op["gen"] = True
+        return op
+
     def op_update(self):
         op = {"op": "update", "q": self.gen_query(),
               "spec": self.gen_update_spec()}
@@ -1021,8 +1064,8 @@ class Gen:
         """Advance the dry world by op and append it."""
         w = self.w
         k = op["op"]
-        if len(w.model.points) > self.prof["max_points"] and k in (
-                "insert", "insert_multiple"):
+        cap = self.prof["max_points"] + (400 if self.bulked else 0)
+        if len(w.model.points) > cap and k in ("insert", "insert_multiple"):
             op = {"op": "remove", "q": self.gen_query(1)} \
                 if self.prof["mix"].get("remove") else \
                 {"op": "get_measurements"}
@@ -1055,6 +1098,14 @@ class Gen:
                 self.emit(ops, self.op_insert())
             while len(ops) < n:
                 c = _w(r, mix)
+                if c == "bulk":
+                    if self.bulked:
+                        continue
+                    self.bulked = True
+                    if self.cfg.get("text_chunk") in (1, 16):
+                        self.cfg["text_chunk"] = 64
+                    if self.cfg.get("bufsize", 8192) < 512:
+                        self.cfg["bufsize"] = 512
                 op = getattr(self, "op_" + c)()
                 self.emit(ops, op)
                 if c in ("insert", "insert_multiple", "update", "update_all",
